@@ -37,6 +37,11 @@ extern int verif_exc;
 #define std_clamp(v, lo, hi) ((v) < (lo) ? (lo) : ((hi) < (v) ? (hi) : (v)))
 #define std_swap(a, b) do { __typeof__(a) verif_swap_tmp = (a); (a) = (b); (b) = verif_swap_tmp; } while (0)
 
+/* std::pair lowered to a struct with the same member names */
+typedef struct { int first; int second; } Pair_int_int;
+typedef struct { bool first; long long second; } Pair_bool_longlong;
+typedef struct { float first; int second; } Pair_float_int;
+
 /* ghost code marker: may only assign ghost variables */
 #define GHOST(stmt) stmt
 
